@@ -221,4 +221,49 @@ theorem compile_hookE (c : Config) : (compile c).all hookE = true := by
       List.all_append, List.all_flatMap, List.all_map, Function.comp_def, both, only, versioned,
       apply_ite (List.all · hookE)]
 
+/-! ### line length -/
+
+theorem gidOwner_params_length (l : List String) :
+    ((l.map (fun g => Match.gidOwner true g)).flatMap Match.params).length = 5 * l.length := by
+  induction l with
+  | nil => rfl
+  | cons g t ih =>
+    simp only [List.map_cons, List.flatMap_cons, List.length_append, ih, List.length_cons]
+    simp [Match.params, neg]
+    omega
+
+def tokE (e : Emit) : Bool := e.rule.tokens ≤ maxLineTokens
+
+theorem handleInbound_tokE (c : Config) : (handleInboundPortsInclude c).all tokE = true := by
+  unfold handleInboundPortsInclude
+  cases ht : c.tproxy <;> cases hi : c.inboundInclude <;>
+    simp [tokE, Rule.tokens, maxLineTokens, Match.params, Target.params, neg, inboundAll, inboundPorts, Config.inTable, ht,
+      List.all_append, List.all_flatMap, List.all_map, Function.comp_def, both, only, versioned]
+
+theorem ownerGroup_tokE (c : Config) (h : c.ownerGroupsAll = true ∨ c.ownerGroupsInclude.length ≤ 49) :
+    (handleCaptureByOwnerGroup c).all tokE = true := by
+  unfold handleCaptureByOwnerGroup
+  cases hog : c.ownerGroupsAll
+  · have hn : c.ownerGroupsInclude.length ≤ 49 := by
+      rcases h with h | h
+      · simp [hog] at h
+      · exact h
+    simp only [Bool.false_eq_true, if_false, List.all_cons, List.all_nil, Bool.and_true, tokE, both, Rule.tokens,
+      gidOwner_params_length, maxLineTokens, Target.params, List.length_cons, List.length_nil, decide_eq_true_eq]
+    omega
+  · simp [tokE, Rule.tokens, maxLineTokens, Match.params, Target.params, neg, List.all_map, Function.comp_def, both]
+
+theorem compile_tokE (c : Config) (h : c.ownerGroupsAll = true ∨ c.ownerGroupsInclude.length ≤ 49) :
+    (compile c).all tokE = true := by
+  unfold compile
+  simp only [List.all_append, Bool.and_eq_true]
+  refine ⟨⟨⟨⟨⟨⟨⟨⟨⟨⟨⟨⟨⟨⟨⟨⟨⟨?_, ?_⟩, ?_⟩, ?_⟩, ?_⟩, ?_⟩, ?_⟩, ?_⟩, ?_⟩, ?_⟩, ?_⟩, ?_⟩, ?_⟩, ?_⟩, ?_⟩, ?_⟩, ?_⟩, ?_⟩
+  all_goals first | exact handleInbound_tokE c | exact ownerGroup_tokE c h |
+    simp [tokE, Rule.tokens, maxLineTokens, Match.params, Target.params, neg, shortCircuitExcludeInterfaces,
+      shortCircuitKubeInternalInterface, dropInvalidRules, baseChains, outputJump, outboundPortsExclude,
+      passthroughSource, loopbackReturn, outboundExcludeCidrs, handleOutboundPortsInclude,
+      handleOutboundIncludeRules, tproxyRules, uidBlock, gidBlock, setupDNSRedir, addDNSConntrackZones,
+      List.all_append, List.all_flatMap, List.all_map, Function.comp_def, both, only, versioned,
+      apply_ite (List.all · tokE)]
+
 end IstioModel.C20
